@@ -18,6 +18,9 @@
    NackCopy      internal/rtpbuffer/packet_factory.go PacketFactoryCopy.NewPacket:
                  *header = header.Clone() (deep: CSRC and extension payloads),
                  copy of the payload into a pooled array                     -> Val
+   NackRtx       the same NewPacket with a retransmission SSRC/payload type configured: the
+                 clone's SSRC, payload type and sequence number are rewritten and the
+                 original sequence number is prefixed to the copied payload         -> Val
    NackNoCopy    PacketFactoryNoOp.NewPacket (nack.DisableCopy): keeps the
                  header pointer and the payload slice                           -> Ref  (documented exception)
    FlexFec       pkg/flexfec/encoder_interceptor.go: packetBuffer = append(..,
@@ -39,12 +42,12 @@
 From IV Require Import Base.Word.
 
 Inductive comp :=
-| NackCopy | NackNoCopy | FlexFec | LeakyBucket | Pacing | DumpSender | DumpReceiver
+| NackCopy | NackRtx | NackNoCopy | FlexFec | LeakyBucket | Pacing | DumpSender | DumpReceiver
 | StatsOut | StatsIn | JBInterceptor | JBPush | TwccSender | Rtpfb.
 
 Definition comp_eqb (a b : comp) : bool :=
   match a, b with
-  | NackCopy, NackCopy | NackNoCopy, NackNoCopy | FlexFec, FlexFec | LeakyBucket, LeakyBucket
+  | NackCopy, NackCopy | NackRtx, NackRtx | NackNoCopy, NackNoCopy | FlexFec, FlexFec | LeakyBucket, LeakyBucket
   | Pacing, Pacing | DumpSender, DumpSender | DumpReceiver, DumpReceiver | StatsOut, StatsOut
   | StatsIn, StatsIn | JBInterceptor, JBInterceptor | JBPush, JBPush | TwccSender, TwccSender
   | Rtpfb, Rtpfb => true
